@@ -363,18 +363,7 @@ func c04(c *Ctx) {
 // c04EmitOnce: in the handler's request loop every completed iteration passes exactly one Channel.Send.
 func c04EmitOnce(c *Ctx, name string, h *ssa.Function) {
 	p := c.P
-	isSend := func(in ssa.Instruction) bool {
-		call, ok := in.(ssa.CallInstruction)
-		if !ok {
-			return false
-		}
-		cc := call.Common()
-		if !cc.IsInvoke() || cc.Method.Name() != "Send" {
-			return false
-		}
-		n := NamedOf(cc.Value.Type())
-		return n != nil && n.Obj().Name() == "Channel"
-	}
+	isSend := func(in ssa.Instruction) bool { return emitsEvent(in, 0) }
 	found := false
 	for _, u := range h.Blocks {
 		for _, hd := range u.Succs {
